@@ -124,7 +124,7 @@ pub fn catch<T>(f: impl FnOnce() -> T) -> Caught<T> {
             if e.downcast_ref::<Deadlock>().is_some() {
                 return Caught::Deadlock;
             }
-            if e.downcast_ref::<BudgetExceeded>().is_some() {
+            if e.downcast_ref::<BudgetExceeded>().is_some() || e.downcast_ref::<resolvo::verif::VerifStepLimitExceeded>().is_some() {
                 return Caught::Budget;
             }
             let message = e
@@ -194,6 +194,15 @@ impl Default for SolveOpts {
 /// observed maximum is reported in every evidence file as `max-provider-steps-any-solve`). It is
 /// deliberately not larger: a livelock that learns one clause per round is quadratic in it.
 pub const DEFAULT_BUDGET: u64 = 30_000;
+
+/// Logical budget for the solver's own loops (hook H4: iterations of the decision loop, propagation,
+/// watch-list traversal and conflict analysis, counted inside resolvo): bounds loops that never call
+/// the provider. Three orders of magnitude above the maximum observed on the unchanged tree
+/// (reported in every evidence file as `max-solver-loop-iterations-any-solve`).
+pub const LOOP_BUDGET: u64 = 50_000_000;
+
+/// Highest number of solver loop iterations any single solve of this process needed (evidence).
+pub static MAX_LOOP_ITERATIONS_SEEN: std::sync::atomic::AtomicU64 = std::sync::atomic::AtomicU64::new(0);
 
 /// Highest number of provider steps any single solve of this process needed (evidence).
 pub static MAX_STEPS_SEEN: std::sync::atomic::AtomicU64 = std::sync::atomic::AtomicU64::new(0);
@@ -268,7 +277,10 @@ impl Session {
         self.solves += 1;
         self.prov().log(Ev::SolveStart(n));
         self.prov().steps.set(0);
+        resolvo::verif::verif_set_step_limit(LOOP_BUDGET);
         let r = catch(|| self.solver.solve(problem(p)));
+        MAX_LOOP_ITERATIONS_SEEN.fetch_max(resolvo::verif::verif_steps(), std::sync::atomic::Ordering::Relaxed);
+        resolvo::verif::verif_set_step_limit(u64::MAX);
         MAX_STEPS_SEEN.fetch_max(self.prov().steps.get(), std::sync::atomic::Ordering::Relaxed);
         self.prov().log(Ev::SolveEnd(n));
         match r {
